@@ -63,6 +63,7 @@ OvmbWrite(ln) ==
   ELSE IF P.pos # m.pos THEN R("C06:WriterPositionsDiffer", "write")
   ELSE IF P.props # OvmbPropSet(m.props) THEN R("C06:WriterPropertiesDiffer", "write")
   ELSE IF P.topo # (IF ln.tt = "auto" THEN DetectTopo(m, ln.mt) ELSE TopoOf(ln.tt)) THEN R("C06:WriterTopoType", "write")
+  ELSE IF Has(ln, "rtt") /\ ln.rtt # P.topo THEN R("C06:ReaderTopoTypeQuery", "write")
   ELSE R("", "write")
 
 OvmbRead(ln) ==
@@ -132,6 +133,12 @@ AsciiWrite(ln) ==
   ELSE IF ~Want("C06") THEN R("", "awrite")
   ELSE IF ~A.ok THEN R("C06:AsciiWriterOutputInvalid:" \o A.why, "awrite")
   ELSE IF ~AsciiMatches(A, m) THEN R("C06:AsciiWriterOutputDiffers:" \o AsciiDiff(A, m), "awrite")
+  ELSE IF Has(ln, "ishex") /\ (ln.ishex # (TopoTypeOf(m) = 2) \/ ln.istet # (TopoTypeOf(m) = 1)) THEN
+       \* the file-level queries of the text format; the case "cell valences fit, a face valence does not" is told apart
+       (IF m.nc > 0 /\ ((ln.ishex /\ AllCellVal(m, 6) /\ ~AllFaceVal(m, 4)) \/ (ln.istet /\ AllCellVal(m, 4) /\ ~AllFaceVal(m, 3)))
+             /\ (ln.ishex => AllCellVal(m, 6)) /\ (ln.istet => AllCellVal(m, 4))
+        THEN R("C06:AsciiTypeDetection:cell-valences-fit-but-a-face-valence-does-not", "awrite")
+        ELSE R("C06:AsciiTypeDetection", "awrite"))
   ELSE R("", "awrite")
 
 AsciiRead(ln) ==
